@@ -15,7 +15,7 @@ use std::rc::Rc;
 pub fn prop() -> Prop {
   Prop {
     id: "C19",
-    rule: "case = (1..4 tasks handed to the scheduler at t=0 or later: one-shot (OnceTask, NormalReturn), subscribing one-shot (OnceTask, SubscribeReturn of a probe subscription), repeating (RepeatTask with period 1..3 that declines after k runs), future-driven (FutureTask over a future that waits on the clock); delay none / 0 / 1 / 3 ticks; history of <= 10 steps: advance the clock, run the executor, run the i-th ready task, cancel handle i (unsubscribe), sample is_closed() of handle i, schedule the next task; executor FIFO-prompt, FIFO-late or any-ready-task-next). \
+    rule: "case = (1..4 tasks handed to the scheduler at t=0 or later: one-shot (OnceTask, NormalReturn), subscribing one-shot (OnceTask, SubscribeReturn of a probe subscription), repeating (RepeatTask with period 1..3 that declines after k runs), future-driven (FutureTask over a future that waits on the clock); delay none / 0 / 1 / 3 ticks (one case in eight at scale: time unit 0.7 s or 1 s + 1 ns instead of one tick, repeating tasks of 32..72 runs, zero periods); history of <= 10 steps: advance the clock, run the executor, run the i-th ready task, cancel handle i (unsubscribe), sample is_closed() of handle i, schedule the next task; executor FIFO-prompt, FIFO-late or any-ready-task-next). \
            Oracle: a one-shot body runs at most once and, once everything due has been run, exactly once unless cancelled before; never before (time it was scheduled + delay); a repeating task's sequence numbers are 0,1,2,... one period apart at least, and it stops for good when it declines or is cancelled; after unsubscribe() returned the body never starts; a subscribing task cancelled after it ran has its product unsubscribed exactly once, cancelled before it ran never creates one; once is_closed() returned true the body does not run later; the handle of a subscribing task that was never cancelled does not report closed while the subscription the task produced is open. Non-trivial: a cancel between scheduling and completion, or >= 2 tasks ready at once. Distinct by hash(case). \
            Part `threads` (engine T): a one-shot or subscribing task (delay none or 1 tick) is scheduled on a harness-driven multi-thread scheduler (VerifSpawner); a worker thread polls queued tasks / advances the clock while another thread calls unsubscribe() on the handle (or two threads on clones of a shared MutArc<Option<TaskHandle>> cell) and raises a flag when it has returned; the task body contains a yield point between an enter and a leave mark; schedule = <= 3 preemptions. Oracle: the body is not entered with the flag raised and is not inside (entered, not left) at the moment the flag is raised; the product of a subscribing task that ran is unsubscribed exactly once after a cancel.",
     assumptions: &["threads part: sequentially consistent interleavings at lock-acquisition granularity plus one yield inside the task body"],
@@ -132,7 +132,35 @@ fn gen_case(c: &mut dyn Choices) -> Case {
       }
     })
     .collect();
-  Case { tasks, ops, mode }
+  let mut case = Case { tasks, ops, mode };
+  // (appended picks, recorded tapes keep their meaning) one case in eight at scale: time in units of 0.7 s or
+  // 1 s + 1 ns instead of single ticks (delays of 0.7 / 2.1 / 3.000000003 s ...), repeating tasks that run 32..72 times,
+  // repeating tasks with a zero period
+  if c.pick(8) == 7 {
+    let unit = *c.one_of(&[1u64, 700_000_000, 1_000_000_001]);
+    let more = c.flag();
+    let zero = c.pick(3) == 0;
+    for t in case.tasks.iter_mut() {
+      t.delay = t.delay.map(|d| d * unit);
+      t.kind = match t.kind.clone() {
+        TKind::Repeat(p, k) => TKind::Repeat(if zero { 0 } else { p * unit }, if more { k + 31 + c.pick(40) } else { k }),
+        TKind::Future(w) => TKind::Future(w * unit),
+        k => k,
+      };
+    }
+    for o in case.ops.iter_mut() {
+      if let Op::Advance(n) = o {
+        *n *= unit;
+      }
+    }
+    if more {
+      for _ in 0..2 {
+        case.ops.push(Op::Advance(unit * (40 + c.pick(60) as u64)));
+        case.ops.push(if case.mode == 2 { Op::RunReady(0) } else { Op::Run });
+      }
+    }
+  }
+  case
 }
 
 struct Observed {
@@ -223,7 +251,9 @@ fn execute(case: &Case) -> Observed {
   }
   let end_step = case.ops.len() + 1;
   crate::stamp::set(end_step);
-  vtime::drain(16);
+  // every one-shot timer and every remaining period of the repeating tasks
+  let periods: usize = case.tasks.iter().map(|t| if let TKind::Repeat(_, k) = t.kind { k } else { 0 }).sum();
+  vtime::drain(16 + periods);
   let w = world.borrow();
   Observed { runs: w.runs.clone(), product_unsubs: w.product_unsubs.clone(), scheduled_at, cancelled_at, closed_true_at, end_step, ready_max }
 }
